@@ -9,6 +9,7 @@ import (
 	"os"
 	"strconv"
 	"sync"
+	"time"
 )
 
 type verifItem struct {
@@ -95,7 +96,17 @@ func verifIteStr(c bool, a, b string) string { if c { return a }; return b }
 func verifParBegin()                        {}
 func verifParMid()                          {}
 func verifParEnd()                          {}
-func verifYield()                           {}
+func verifYield()                           { time.Sleep(60 * time.Millisecond) }
+
+// verifBackground natively hammers f from another goroutine (a stream of writers queueing on the lock)
+func verifBackground(f func()) {
+	go func() {
+		for i := 0; i < 2000; i++ {
+			f()
+			time.Sleep(time.Millisecond)
+		}
+	}()
+}
 func verifHeldLocks() int                   { return 1 << 20 } // not observable natively
 func verifParam(name string) int            { return verifDoc.Params[name] }
 
